@@ -4,7 +4,7 @@
    ordering, exception class and warning by the correspondence check of this property. *)
 From Coq Require Import String ZArith List Bool.
 From XV Require Import Base.Label Base.LSet Base.ODict Base.Attr Base.Outcome Model.Hypergraph
-  Proofs.HgViews Proofs.HgInv Proofs.HgInvOps Proofs.HgStep Proofs.HgErrors Proofs.HgSpec Proofs.ShuffleProofs Proofs.DerivedProofs Proofs.HgSpecMore Model.DiHypergraph Proofs.DiSpec Model.SimplicialComplex Proofs.ScInv Proofs.ScExact.
+  Proofs.HgViews Proofs.HgInv Proofs.HgInvOps Proofs.HgStep Proofs.HgErrors Proofs.HgSpec Proofs.ShuffleProofs Proofs.DerivedProofs Proofs.HgSpecMore Model.DiHypergraph Proofs.DiSpec Model.SimplicialComplex Proofs.ScInv Proofs.ScExact Proofs.SetterProofs Proofs.ScClose.
 Import ListNotations.
 Open Scope Z_scope.
 
@@ -141,6 +141,30 @@ Theorem C05_merge_duplicates_no_repeats : forall s, Inv s -> NoNone s ->
 Proof. exact merge_first_no_repeats. Qed.
 Print Assumptions C05_merge_duplicates_no_repeats.
 
+(* the named and scalar forms of the attribute setters *)
+Theorem C05_set_node_attributes_named : forall vals name s, NoDup (map fst vals) ->
+  (forall nv, In nv vals -> In (fst nv) (keys (h_nattr s))) ->
+  let t := st_of (set_node_attrs_named vals name s) in
+  (forall n, get n (h_nattr t) = match get n vals with Some v => Some (aset name v (geta n (h_nattr s))) | None => get n (h_nattr s) end) /\
+  h_node t = h_node s /\ h_edge t = h_edge s /\ h_eattr t = h_eattr s /\ h_uid t = h_uid s.
+Proof. exact set_node_attrs_named_effect. Qed.
+Print Assumptions C05_set_node_attributes_named.
+
+Theorem C05_set_edge_attributes_named : forall vals name s, NoDup (map fst vals) ->
+  (forall nv, In nv vals -> In (fst nv) (keys (h_eattr s))) ->
+  let t := st_of (set_edge_attrs_named vals name s) in
+  (forall e, get e (h_eattr t) = match get e vals with Some v => Some (aset name v (geta e (h_eattr s))) | None => get e (h_eattr s) end) /\
+  h_node t = h_node s /\ h_edge t = h_edge s /\ h_nattr t = h_nattr s /\ h_uid t = h_uid s.
+Proof. exact set_edge_attrs_named_effect. Qed.
+Print Assumptions C05_set_edge_attributes_named.
+
+Theorem C05_set_node_attributes_scalar : forall v name s, Inv s ->
+  let t := st_of (set_node_attrs_scalar v name s) in
+  (forall n, In n (nkeys s) -> get n (h_nattr t) = Some (aset name v (geta n (h_nattr s)))) /\
+  h_node t = h_node s /\ h_edge t = h_edge s /\ h_eattr t = h_eattr s /\ h_uid t = h_uid s.
+Proof. exact set_node_attrs_scalar_effect. Qed.
+Print Assumptions C05_set_node_attributes_scalar.
+
 (* ----- directed hypergraphs ----- *)
 (* add_edge((tail, head)) with an automatic id stores exactly the given tail and head under the next id and
    leaves the tail and head of every other edge alone *)
@@ -169,6 +193,17 @@ Theorem C05_directed_remove_missing_edge : forall e d, has e (h_edge (ts d)) = f
 Proof. exact d_remove_edge_missing. Qed.
 Print Assumptions C05_directed_remove_missing_edge.
 
+(* strong removal of a node: exactly the edges with the node in their tail or head disappear *)
+Theorem C05_directed_remove_node_strong : forall n re d outs, get n (h_node (ts d)) = Some outs ->
+  let r := d_remove_node n true re d in
+  let d' := dst_of r in
+  let gone := sunion (in_mships d n) outs in
+  snd (fst r) = Ok /\
+  forall e', get e' (h_edge (ts d')) = (if mem e' gone then None else get e' (h_edge (ts d))) /\
+             get e' (h_edge (hs d')) = (if mem e' gone then None else get e' (h_edge (hs d))).
+Proof. exact d_remove_node_strong_effect. Qed.
+Print Assumptions C05_directed_remove_node_strong.
+
 (* ----- simplicial complexes ----- *)
 (* add_simplex of a new simplex (no None member, free id): afterwards the complex holds exactly what it held, the
    simplex, and the sub-faces of the simplex with two or more nodes - nothing else - and keeps its invariant *)
@@ -179,6 +214,11 @@ Theorem C05_add_simplex_exact : forall ms idx a hint s, SInv s ->
   SInv t /\ forall x, HasS t x <-> HasS s x \/ seteq x (mkset ms) \/ exists g, seteq x g /\ Face g (mkset ms).
 Proof. exact add_simplex_exact. Qed.
 Print Assumptions C05_add_simplex_exact.
+
+(* close() on a complex satisfying the class invariant (hence already closed) changes nothing at all *)
+Theorem C05_close_is_noop : forall hint s, SInv s -> NoNone s -> close hint s = ok s.
+Proof. exact close_noop. Qed.
+Print Assumptions C05_close_is_noop.
 
 Example C05_nonvacuous :
   let s := run [OAddEdgesFrom (EB1 [[LInt 1; LInt 2]; [LInt 3; LInt 4]; [LInt 1]]) []] hg_empty in
